@@ -62,7 +62,7 @@ SHARE = {"copy": "copy", "setsub": "assign-msg", "setsubfrom": "assign-submsg", 
 # sharing step of a freeze bypass only when the mutation comes through such a handle of the frozen group itself.
 SNAP = {"snap.mm0": "map-items", "vals.mm0": "map-items", "items.mm0": "map-items", "snap.rm0": "list-iteration"}
 OPS_QUICK = ["new", "copy", "freeze", "seti", "setsub", "setsubnew", "setsubfrom", "setr", "setrfrom", "setrm", "setrmnew",
-             "setrmfrom", "setmp", "setmpfrom", "setmm", "setmmnew", "sub.seti", "r.append", "r.set0", "rm0.seti", "mp.setb",
+             "setrmfrom", "setmp", "setmpfrom", "setmm", "setmmnew", "sub.seti", "sub.setmp", "sub.setr", "r.append", "r.set0", "rm0.seti", "mp.setb",
              "mm0.seti", "view.sub", "view.r", "view.rm", "view.mp", "view.rm0", "view.mm0", "snap.mm0", "vals.mm0", "items.mm0",
              "snap.rm0", "v.append", "v.set0", "v0.seti", "v.setb", "clr.i", "clr.sub", "clr.r", "clr.rm", "clr.mp", "clr.mm"]
 OPS_RICH = ["rm.append", "rm.set0", "vm.append"]
